@@ -4,7 +4,10 @@ import (
 	"bytes"
 	"context"
 	"math/big"
+	"runtime"
+	"strings"
 	"testing"
+	"time"
 
 	"github.com/iotaledger/hive.go/serializer/v2"
 	"github.com/iotaledger/hive.go/serializer/v2/serix"
@@ -160,5 +163,43 @@ func TestRegressionDecodeIntoBigInt(t *testing.T) {
 	}
 	if p := catch(func() { _, err = api.Decode(ctx, []byte{1, 2}, new(big.Int)) }); p != nil || err == nil {
 		t.Fatalf("Decode of a short input into new(big.Int): panic=%v err=%v", p, err)
+	}
+}
+
+type regJSONNode struct {
+	Child *regJSONNode `serix:",optional"`
+}
+
+// the JSON twin (found by an independent auditor, third round): the map form had no nesting limit, rejecting a document
+// nested a few thousand levels cost quadratic time and memory (100 kB: 4 GB, 35 s), and a map nested a million levels
+// handed to MapDecode directly ended in a fatal stack overflow.
+func TestRegressionDeepJSONNestingIsBounded(t *testing.T) {
+	api := serix.NewAPI()
+	ctx := context.Background()
+	doc := func(levels int) []byte {
+		return []byte(strings.Repeat(`{"child":`, levels) + "{}" + strings.Repeat("}", levels))
+	}
+	if err := api.JSONDecode(ctx, doc(100), &regJSONNode{}); err != nil {
+		t.Fatalf("100 nesting levels: %v", err)
+	}
+	var ms1, ms2 runtime.MemStats
+	runtime.ReadMemStats(&ms1)
+	start := time.Now()
+	err := api.JSONDecode(ctx, doc(9000), &regJSONNode{}) // ~100 kB, below encoding/json's own limit of 10000 levels
+	runtime.ReadMemStats(&ms2)
+	if err == nil {
+		t.Fatal("9000 nesting levels were decoded")
+	}
+	if alloc := ms2.TotalAlloc - ms1.TotalAlloc; alloc > 256<<20 {
+		t.Fatalf("refusing a 100 kB document allocated %d MiB", alloc>>20)
+	}
+	t.Logf("refusing 9000 levels took %v", time.Since(start))
+	// a map that does not come from encoding/json
+	var nested any = map[string]any{}
+	for i := 0; i < 1_500_000; i++ {
+		nested = map[string]any{"child": nested}
+	}
+	if err := api.MapDecode(ctx, nested.(map[string]any), &regJSONNode{}); err == nil {
+		t.Fatal("1.5 million nesting levels were decoded")
 	}
 }
